@@ -32,6 +32,21 @@ type combCase struct {
 
 func (c *Ctx) mkComb(root *Node, obj *AV, canon bool) *combCase {
 	cc := &combCase{root: root, obj: obj, text: c.style(canon).Render(root)}
+	if c.Res.Property != "C01" {
+		// grouping is C01's (and C20's) question: the other composition properties take the grouping the engine's own
+		// parser gives the text, so that a change of associativity trips C01/C20 only
+		if g := goLexParse(strings.TrimSpace(cc.text)); g.Accept {
+			if gt := treeFromShape(g.Shape); gt != nil {
+				var a, b []*Node
+				root.Leaves(&a)
+				gt.Leaves(&b)
+				if len(a) == len(b) {
+					cc.root = gt
+					root = gt
+				}
+			}
+		}
+	}
 	root.Leaves(&cc.leaves)
 	m := obj.GoMap()
 	poison := poisonObjects(c.R, root)
@@ -398,6 +413,10 @@ func checkC06(c *Ctx) {
 				got := evalFresh(text, obj.GoMap())
 				c.Res.Evaluations++
 				c.count("table_cells")
+				if got.E == "syn" {
+					c.count("outside_domain_rejected_by_the_engines_parser")
+					continue
+				}
 				uns := unsupported(kind, op)
 				if uns {
 					c.nontrivial(text, obj.String())
@@ -501,6 +520,15 @@ func checkC16(c *Ctx) {
 		c.Res.Evaluations++
 		c.count("table_cells")
 		if lc.goObs.E == "badlit" || modelField(lc.model, "e") == "badlit" {
+			continue
+		}
+		if lc.goObs.E == "syn" {
+			c.count("outside_domain_rejected_by_the_engines_parser")
+			continue
+		}
+		if a := lc.obj.Get("x"); a != nil && (a.K == AVInt32 || a.K == AVInt64) && (lc.leaf.Lit.Kind == "dbl" || lc.leaf.Lit.Kind == "dlist") {
+			// whether an int32/int64 attribute can be compared with a decimal literal is constrained by no property
+			c.count("unconstrained_int64_vs_decimal")
 			continue
 		}
 		md := modelField(lc.model, "d")
